@@ -270,7 +270,9 @@ theorem runTask_stream (c : Conn) (t : Task) (h : StreamInv c) : StreamInv (runT
   split
   · split
     · exact StreamInv.of_same ⟨rfl, rfl, rfl, rfl⟩ h
-    · exact StreamInv.of_same (same_trans ⟨rfl, rfl, rfl, rfl⟩ (emit_same _ _)) h
+    · split
+      · exact h
+      · exact StreamInv.of_same (same_trans ⟨rfl, rfl, rfl, rfl⟩ (emit_same _ _)) h
   · cases t with
     | sendInLoop d => exact sendInLoop_stream _ _ _ h
     | shutdownInLoop => exact StreamInv.of_same (shutdownInLoop_same _) h
